@@ -6,6 +6,10 @@ package main
 // answer arrives afterwards: it must complete with it, on every fail mode.  Oracle only.
 
 import (
+	"github.com/smallnest/rpcx/share"
+	"github.com/smallnest/rpcx/server"
+	"strings"
+	"strconv"
 	"context"
 	"fmt"
 	"sync/atomic"
@@ -122,4 +126,94 @@ func c06xAll(o *common.Out, prefix string) {
 			c06xRun(o, fmt.Sprintf("%s-x%d", prefix, k), mode, ag)
 		}
 	}
+}
+
+// c06Real: a real server (options: "", "async", "pool", "async+pool") and one client connection.  The aggressor's call
+// carries a deadline (as the discovery client sends it: the __ServerTimeout metadata) and times out while its handler
+// is held; afterwards - the deadline long past - the victim calls on the same connection without any deadline of its
+// own and gets its result; so does a second victim issued before the aggressor's handler is let go.  Oracle only.
+// case: real|<server options>
+func c06Real(o *common.Out, id string, sopt string) {
+	abstract := "real|" + sopt
+	o.Begin(id, abstract)
+	o.Count("timed-out-call-next-to-others-on-a-real-server")
+	var opts []server.OptionFn
+	if strings.Contains(sopt, "async") {
+		opts = append(opts, server.WithAsyncWrite())
+	}
+	if strings.Contains(sopt, "pool") {
+		opts = append(opts, server.WithPool(4, 64))
+	}
+	rig := newSrvRig(true, opts...)
+	rig.start()
+	defer rig.stop()
+	copt := client.DefaultOption
+	copt.SerializeType = protocol.JSON
+	copt.Heartbeat = false
+	cl, err := rig.realClient(copt)
+	if err != nil {
+		o.Fail(id, "rig", err.Error(), abstract)
+		return
+	}
+	defer cl.Close()
+	type res struct {
+		c   int
+		err error
+	}
+	call := func(rid, a, b int, timeout time.Duration, withDeadlineMeta bool) chan res {
+		ch := make(chan res, 1)
+		go func() {
+			ctx, cancel := context.WithTimeout(context.Background(), timeout)
+			defer cancel()
+			if withDeadlineMeta {
+				ctx = context.WithValue(ctx, share.ReqMetaDataKey, map[string]string{share.ServerTimeout: strconv.Itoa(int(timeout / time.Millisecond))})
+			}
+			var rep SReply
+			err := cl.Call(ctx, "Arith", "Mul", &SArgs{Id: rid, A: a, B: b, Mode: "ok"}, &rep)
+			ch <- res{rep.C, err}
+		}()
+		return ch
+	}
+	waitEntered := func(what string) bool {
+		select {
+		case <-rig.h.entered:
+			return true
+		case <-time.After(3 * time.Second):
+			o.Fail(id, "rig", what+" never reached its handler", abstract)
+			return false
+		}
+	}
+	ag := call(0, 2, 3, 150*time.Millisecond, true)
+	if !waitEntered("the aggressor") {
+		return
+	}
+	v1 := call(1, 4, 5, 5*time.Second, false) // in flight while the aggressor times out
+	if !waitEntered("the first victim") {
+		return
+	}
+	if r := <-ag; r.err == nil {
+		o.Fail(id, "rig", "the aggressor did not time out", abstract)
+		return
+	}
+	time.Sleep(60 * time.Millisecond) // the aggressor's deadline is well past
+	rig.h.release(0)
+	rig.h.release(1)
+	check := func(what string, ch chan res, want int) {
+		select {
+		case r := <-ch:
+			if r.err != nil || r.c != want {
+				o.Fail(id, "foreign-timeout", fmt.Sprintf("%s (no deadline of its own, the server answered) ended with %d, %v after another call on the connection had timed out", what, r.c, r.err), abstract)
+			}
+		case <-time.After(6 * time.Second):
+			o.Fail(id, "left-hanging", what+" never returned", abstract)
+		}
+	}
+	check("the victim in flight during the time-out", v1, 20)
+	v2 := call(2, 6, 7, 5*time.Second, false)
+	if !waitEntered("the later victim") {
+		return
+	}
+	rig.h.release(2)
+	check("the victim issued after the time-out", v2, 42)
+	o.ImplOnly(id, abstract, true)
 }
